@@ -179,7 +179,13 @@ func (w *W) c10Check(pj *simdjson.ParsedJson, want []*ref.Value, cs *ev.Case, ct
 				if err != nil {
 					return err
 				}
-				at, err = a.MarshalJSON()
+				at, err = a.MarshalJSONBuffer([]byte("PFX"))
+				if err == nil {
+					if !bytes.HasPrefix(at, []byte("PFX")) {
+						return fmt.Errorf("Array.MarshalJSONBuffer did not append to the destination")
+					}
+					at = at[3:]
+				}
 				return err
 			})
 			if perr != nil {
@@ -204,7 +210,13 @@ func (w *W) c10Check(pj *simdjson.ParsedJson, want []*ref.Value, cs *ev.Case, ct
 				if err != nil {
 					return err
 				}
-				ot, err = els.MarshalJSON()
+				ot, err = els.MarshalJSONBuffer([]byte("PFX"))
+				if err == nil {
+					if !bytes.HasPrefix(ot, []byte("PFX")) {
+						return fmt.Errorf("Elements.MarshalJSONBuffer did not append to the destination")
+					}
+					ot = ot[3:]
+				}
 				return err
 			})
 			if perr != nil {
@@ -448,7 +460,7 @@ func runC10(w *W) {
 		w.c10Judge(st, "numbers", []byte(`[`+strings.Join(nums[i:i+4], ",")+`,{"n":`+nums[i]+`}]`), false, next(), 0)
 	}
 	// valid documents: fresh
-	scale := 2
+	scale := 6
 	if th {
 		scale = 80
 	}
@@ -460,7 +472,7 @@ func runC10(w *W) {
 	})
 	w.eachNDInput(scale, func(g string, in []byte) { w.c10Judge(st, g, in, true, next(), 0) })
 	// after edit histories
-	n := 5000
+	n := 20000
 	if th {
 		n = 400000
 	}
